@@ -62,7 +62,9 @@ META = dict(
          'honeycomb, rumpled and rect2d two-site cells with a site vector basis, triclinic, oblique, monoclinic, '
          'rhombohedral, orthorhombic), rigidly rotated copies of them (lattice -> Q.lattice, tilts 1e-4 (1e-5 thorough) .. 1 deg and generic '
          'angles about several axes: float oracles + rotation covariance of the span of the vector stars), plus random '
-         'members of lattice families with random parameters; Nthermo 1..2 quick, '
+         'members of lattice families with random parameters, plus object-reuse histories (one VectorStarSet / calculator '
+         'used for star set A with all expansions computed, then for B with other Nshells or crystal parameter; compared '
+         'with a fresh object); Nthermo 1..2 quick, '
          '1..3 thorough; random class rates per case. Every case runs the direct oracles and the projection comparison; '
          'the small ones also go through the Lean checker and the exact model expansions. Non-trivial = at least two '
          'vector stars and a non-trivial group or a multi-site basis; distinct by (lattice, basis, cutoff, Nthermo).',
@@ -295,7 +297,7 @@ def compare_lean(c, answers, expect_oracle_sigs):
 # ---------------------------------------------------------------- one case (worker process)
 def _build(task):
     from . import _c25_impl as I
-    if task['kind'] in ('zoo', 'rot'):
+    if task['kind'] in ('zoo', 'rot', 'reuse'):
         crys, chem, cut = I.zoo()[task['name']]
     else:
         fam, crys, chem, cut = I.random_crystal(random.Random(task['cseed']))
@@ -311,6 +313,21 @@ def _job(task):
     res = dict(task=task, records=[], lean=None, err=None)
     try:
         crys, chem, cut = _build(task)
+        if task['kind'] == 'reuse':
+            # object-reuse histories: no new crystal/case of the main stream, only the comparison reused vs fresh
+            crysB = crys if task['eps'] == 0. else I.parameter_variant(crys, chem, task['eps'])
+            res['info'] = dict(name='%s reuse %s %d->%d%s' % (task['name'], task['level'], task['nA'], task['nB'],
+                                                              '' if task['eps'] == 0. else ' param%+g' % task['eps']),
+                               N=task['nB'], dim=crys.dim, G=len(list(crys.G)), states=0, stars=0, vstars=2, om1=0, om2=0, OS=0,
+                               nsites=len(crys.basis[chem]), lattice=np.asarray(crys.lattice).tolist(),
+                               basis=[np.asarray(u).tolist() for u in crys.basis[chem]], cutoff=cut,
+                               history=dict(level=task['level'], nA=task['nA'], nB=task['nB'], eps=task['eps']))
+            if task['level'] == 'calculator':
+                res['records'] += I.calculator_reuse_oracles(crys, chem, cut, task['nA'], task['nB'], np.random.default_rng(task['seed']))
+            else:
+                res['records'] += I.reuse_oracles(crys, crysB, chem, cut, task['nA'], task['nB'])
+            res['secs'] = time.time() - t0
+            return res
         base = None
         if task['kind'] == 'rot':
             # rigidly rotated copy (lattice -> Q.lattice): everything must be the rotated image of the unrotated result
@@ -397,6 +414,17 @@ def _plan(ctx, for_search=False):
             ax = axes[(a + b) % len(axes)] if a < len(angles) else tuple(rng.uniform(-1, 1) for _ in range(3))
             tasks.append(dict(kind='rot', name=name, N=1 if (quick or name in ('hcp', 'rumpled', 'mono-2site', 'triclinic')) else 2,
                               axis=ax, deg=deg, seed=rng.getrandbits(32), lean=False, leancap=0))
+    # object-reuse histories: one VectorStarSet (or calculator) used for star set A, expansions computed, then for B
+    reuse_small = ['sq2d', 'rect2d-2site', 'fcc', 'ortho', 'honey2d'] if quick else \
+        ['sq2d', 'tri2d', 'honey2d', 'rect2d-2site', 'oblique2d', 'fcc', 'bcc', 'sc', 'diamond', 'ortho', 'mono', 'rhomb', 'b2']
+    reuse_big = ['rumpled', 'hcp'] if quick else ['rumpled', 'hcp', 'triclinic', 'mono-2site']
+    for name in reuse_small + reuse_big:
+        hist = [(2, 3, 0.), (3, 2, 0.), (2, 2, 0.03), (2, 2, -0.02)] if name in reuse_small else [(1, 2, 0.), (2, 1, 0.), (2, 2, 0.03)]
+        for nA, nB, eps in hist:
+            tasks.append(dict(kind='reuse', level='vectorstarset', name=name, nA=nA, nB=nB, eps=eps, N=nB, seed=0, lean=False, leancap=0))
+        for nA, nB in ([(1, 2), (2, 1)] if name in reuse_small else [(1, 2)] if not quick else []):
+            tasks.append(dict(kind='reuse', level='calculator', name=name, nA=nA, nB=nB, eps=0., N=nB, seed=rng.getrandbits(32),
+                              lean=False, leancap=0))
     nrand = 8 if quick else 60
     for t in range(nrand):
         tasks.append(dict(kind='random', name='random', cseed=rng.getrandbits(32), N=1 + (t % 2), seed=rng.getrandbits(32),
@@ -431,6 +459,9 @@ def _run_tasks(ctx, tasks):
         info = r['info']
         key = (tuple(map(tuple, info['lattice'])), tuple(map(tuple, info['basis'])), info['cutoff'], info['N'])
         nontrivial = info['vstars'] >= 2 and (info['G'] > 1 or info['nsites'] > 1)
+        if task['kind'] == 'reuse':
+            key = key + (info['name'],)
+            ctx.count('reuse-history:' + task['level'])
         ctx.case(key, nontrivial=nontrivial,
                  sample={k: info[k] for k in ('name', 'N', 'dim', 'G', 'states', 'stars', 'vstars', 'om1', 'om2', 'OS')})
         ctx.count('crystal:' + info['name'].split(':')[0].split(' ')[0] + (':rand' if task['kind'] == 'random' else '') + (':rotated' if task['kind'] == 'rot' else ''))
@@ -441,7 +472,7 @@ def _run_tasks(ctx, tasks):
         for sig, what, detail in r['records']:
             sigs.add(sig)
             replay = dict(crystal=info['name'], lattice=info['lattice'], basis=info['basis'], chem=0, cutoff=info['cutoff'],
-                          Nthermo=info['N'], rate_seed=task['seed'], detail=detail,
+                          Nthermo=info['N'], rate_seed=task['seed'], detail=detail, history=info.get('history'),
                           how='crys=Crystal(lattice,[basis]); jn=crys.jumpnetwork(0,cutoff); VacancyMediated(crys,0,crys.sitelist(0),jn,Nthermo); '
                               'see harness/props/_c25_impl.py vector_star_oracles / projection_oracles')
             ctx.violation(sig, '%s N=%d: %s' % (info['name'], info['N'], what), replay)
